@@ -30,6 +30,11 @@ LTNext ==
            ELSE IF Ev.missing > 0 THEN PrintT(<<"MISMATCH", l, "linget", {"getMissedInstalledEntry"}>>)
            ELSE IF Ev.dup > 0 THEN PrintT(<<"MISMATCH", l, "linget", {"getDuplicateDuringReplace"}>>)
            ELSE TRUE)
+     ELSE IF Ev.ev = "lintwoget"
+     \* two Gets of one instance in progress at the same time (nothing is written): each returns exactly the entries of its own scope (C07, C11)
+     THEN (IF Ev.failed # "" THEN PrintT(<<"MISMATCH", l, "lintwoget", {"lintwogetFailed"}>>)
+           ELSE IF Ev.gotA # Ev.wantA \/ Ev.gotB # Ev.wantB THEN PrintT(<<"MISMATCH", l, "lintwoget", {"getInterference"}>>)
+           ELSE TRUE)
      ELSE IF Ev.ev = "linsnap"
      \* Get is a snapshot (C07, C11): with W1 acknowledged before W2 was issued, a Get in progress returns the contents of one moment
      THEN (IF Ev.failed # "" THEN PrintT(<<"MISMATCH", l, "linsnap", {"linsnapFailed"}>>)
